@@ -21,7 +21,9 @@ func (e *Emitter) Do(cs Case, class string) Result {
 		// the initiator's choice among several candidates follows Go's map iteration order:
 		// a replay repeats the run so that both orders are seen
 		for i := 0; i < 7; i++ {
-			e.do(cs, class)
+			if e.do(cs, class).Outcome == "STALL" {
+				break
+			}
 		}
 	}
 	return e.do(cs, class)
